@@ -25,6 +25,8 @@ import vlib
 
 HARNESSES = ["C12"]
 MODEL = True
+if hasattr(sys, "set_int_max_str_digits"):
+    sys.set_int_max_str_digits(0)
 
 ALPHABET = "+-019.eE/"
 GRAMMAR = re.compile(r'^[+-]?(\d+\.?\d*|\.\d+)([eE][+-]?\d+)?$|^[+-]?\d+/\d+$')
@@ -69,9 +71,11 @@ def digit_strings(n, digits="019"):
     return ["".join(t) for t in itertools.product(digits, repeat=n)]
 
 
-def enumerate_grammar(maxlen):
-    """all strings of the grammar over ALPHABET up to maxlen (constructive, checked against GRAMMAR and - for short
-    strings - against the extracted [denote])"""
+def enumerate_grammar(maxlen, min_exp_digits=1, max_exp_digits=3):
+    """all strings of the grammar over ALPHABET up to maxlen whose exponent (if any) has between min_exp_digits and
+    max_exp_digits digits (constructive; checked against GRAMMAR and - for short strings - against the extracted
+    [denote]).  Exponents of four and more digits only ever overflow or underflow and cost seconds each in exact
+    arithmetic: they are sampled, not enumerated."""
     D = {n: digit_strings(n) for n in range(0, maxlen + 1)}
     out = set()
     mant = []                                   # (text) without sign
@@ -88,8 +92,8 @@ def enumerate_grammar(maxlen):
                 for x in D[a]:
                     for y in D[b]:
                         mant.append(x + "." + y)
-    exps = [""]
-    for n in range(1, maxlen):
+    exps = [""] if min_exp_digits <= 1 else []
+    for n in range(min_exp_digits, min(maxlen, max_exp_digits + 1)):
         for e in "eE":
             for s in ("", "+", "-"):
                 if 1 + len(s) + n <= maxlen:
@@ -102,7 +106,7 @@ def enumerate_grammar(maxlen):
             for e in exps:
                 if len(s) + len(m) + len(e) <= maxlen:
                     out.add(s + m + e)
-        for a in range(1, maxlen):
+        for a in range(1, maxlen if min_exp_digits <= 1 else 0):
             for b in range(1, maxlen - a):
                 if len(s) + a + 1 + b <= maxlen:
                     for x in D[a]:
@@ -116,7 +120,7 @@ def random_literals(rng, n):
     out = []
     special = ["9007199254740993", "9007199254740993.0000000000000000000000000001", "9007199254740992.9999999999999999999",
                "4.9406564584124654e-324", "2.4703282292062327e-324", "2.4703282292062328e-324", "2.2250738585072011e-308",
-               "1.7976931348623157e308", "1.7976931348623158e308", "1.7976931348623159e308", "179769313486231580793728971405303415079934132710037826936173778980444968292764750946649017977587207096330286416692887910946555547851940402630657488671505820681908902000708383676273854845817711531764475730270069855571366959622842914819860834936475292719074168444365510704342711559699508093042880177904174497791.999",
+               "1.7976931348623157e308", "1.7976931348623158e308", "1.7976931348623159e308",
                "0.1", "0.2", "0.3", "1e-1", "1e-2", "1e-3", "1e22", "1e23", "1e24", "123456789012345678901234567890e-20",
                "0.000000000000000000000000000000000000001", "1/3", "2/3", "10/4", "-7/21", "123456789/1000000007",
                "-0.0", "-0.000", "-.0", "-00.0e5", "-0e0", "0.1e1", "1.e-1", "5.E+2", "+.5E-1", "1e400", "-1e999", "1e-400",
@@ -226,6 +230,12 @@ def check_literals(ck, exe, model, tmp, lits, validate_filter_upto):
             ck.violation("grammar-filter", "generated literal %r is not in the grammar of LiteralModel.denote" % lit,
                          {"literal": lit}, no_input=True)
             continue
+        if m.get("chk") == "0":
+            ck.violation("model-inconsistent", "denote and denote_sci disagree on %r" % lit, {"literal": lit}, no_input=True)
+            continue
+        if m["den"] == "huge":
+            ck.count("lit:skipped-astronomic-exponent")
+            continue
         if m["code"] == "CRASH":
             groups["crash"].append(lit)
         elif "/" in lit:
@@ -254,7 +264,7 @@ def check_literals(ck, exe, model, tmp, lits, validate_filter_upto):
     rejected = {}
     for lit in lits:
         m, h = M.get(lit), H.get(lit)
-        if m is None or h is None or m["den"] == "none":
+        if m is None or h is None or m["den"] in ("none", "huge") or m.get("chk") == "0":
             continue
         cls = lit_class(lit)
         ck.count("lit:" + cls)
@@ -299,6 +309,10 @@ def check_literals(ck, exe, model, tmp, lits, validate_filter_upto):
                                  "operands; mpq_set_str without mpq_canonicalize)" % (lit, where, nc[0]),
                                  {"literal": lit, "where": where, "observed": val, "denotation": m["den"]})
             # correspondence of the readers with the model of the code
+            # (a zero value is re-normalised to 0/1 by mpq_mul's zero short-cut in val *= pre_sign and is not stored as a
+            # matrix entry at all: compare stored pairs for non-zero values only)
+            if want == 0:
+                continue
             if where == "lp" and m["lpf"].startswith("V:") and any(v != m["lpf"][2:] for v in val):
                 ck.violation("model-mismatch:lp-reader:" + cls, "LP reader stores %s for %r, model of the code %s" % (val, lit, m["lpf"]),
                              {"literal": lit, "implementation": val, "model": m["lpf"]}, no_input=True)
@@ -432,6 +446,13 @@ def rnd_lp(rng, mode, family):
                 if v != 0:
                     es[j] = v
         rows.append({"lhs": lhs, "rhs": rhs, "es": es, "name": rnd_name(rng, used, longn)})
+    if mode == "real":                                       # every value must be a double
+        rd = lambda v: v if v in ("inf", "-inf") else Fraction(float(v))
+        for x in cols:
+            x["obj"], x["lo"], x["up"] = rd(x["obj"]), rd(x["lo"]), rd(x["up"])
+        for r in rows:
+            r["lhs"], r["rhs"] = rd(r["lhs"]), rd(r["rhs"])
+            r["es"] = {j: rd(v) for j, v in r["es"].items() if rd(v) != 0}
     return {"sense": rng.choice(["min", "max"]), "offset": rng.choice([0.0, 0.0, 2.5, -7.0]), "cols": cols, "rows": rows}
 
 
@@ -563,26 +584,40 @@ def check_roundtrips(ck, exe, model, tmp, cases):
         for k in want_in:
             if orig[k] != want_in[k]:
                 ck.violation("api-store:" + k, "the LP built through the API differs from the case in %s" % k, dict(replay, observed=hb["ORIG"]), no_input=True)
-        nfree = sum(1 for r in lp["rows"] if r["lhs"] == "-inf" and r["rhs"] == "inf")
-        longest = max([len(x["name"]) for x in lp["cols"]] + [len(r["name"]) for r in lp["rows"]] + [0]) if c["names"] else 0
+        # features of the case that are tied to a reported defect of the writers / readers; a difference they explain
+        # gets the feature names as signature, anything else is reported as "unexplained"
         feat = []
-        if nfree:
-            feat.append("free-row")
-        if longest > 8:
-            feat.append("long-names")
-        if c["fmt"] == "mps" and c["mode"] == "real":
-            big = [v for v in list(src["obj"]) + list(src["lo"]) + list(src["up"]) + list(src["lhs"]) + list(src["rhs"]) + list(src["A"].values())
-                   if v not in ("inf", "-inf") and abs(v) >= Fraction(10) ** 53]
-            if big or any(x["int"] and src["up"][j] == "inf" and not (src["lo"][j] == "-inf") for j, x in enumerate(lp["cols"])):
-                feat.append("wide-value")
-        ftag = "+".join(feat) if feat else "plain"
+        if any(r["lhs"] == "-inf" and r["rhs"] == "inf" for r in lp["rows"]):
+            feat.append("free-row")                 # writeMPS throws XMPSWR02
+        if c["names"] and max([len(x["name"]) for x in lp["cols"]] + [len(r["name"]) for r in lp["rows"]] + [0]) > 8:
+            feat.append("long-names")               # MPS writers truncate names to 8 characters
+        if c["fmt"] == "mps":
+            if c["mode"] == "real" and c["names"] and any(len(x["name"]) >= 8 for x in lp["cols"]):
+                feat.append("name8")                # real writeMPS: an 8-character column name runs into the next field
+            if c["mode"] == "real" and any(x["int"] and src["up"][j] == "inf" and src["lo"][j] != "-inf" and src["lo"][j] != src["up"][j]
+                                           for j, x in enumerate(lp["cols"])):
+                feat.append("int-inf-upper")        # real writeMPS: "UP" record of 1e100 cut at 80 characters
+            if any(src["lo"][j] == "-inf" and src["up"][j] != "inf" for j in range(len(lp["cols"]))):
+                feat.append("mi-bound")             # readMPS: "MI" is taken for an integer bound (second letter 'I')
+        explains = {"free-row": {"write"}, "long-names": {"read", "columns", "rownames"}, "name8": {"read"},
+                    "int-inf-upper": {"up"}, "mi-bound": {"int"}}
+
+        def sig(kind, fields):
+            ex = set()
+            for t in feat:
+                ex |= explains[t]
+            rel = [t for t in feat if explains[t] & set(fields)]
+            if set(fields) <= ex and rel:
+                return "roundtrip-%s:%s:%s" % (kind, fam, "+".join(rel))
+            return "roundtrip-%s:%s:unexplained:%s" % (kind, fam, ",".join(sorted(fields)))
+
         if hb.get("WRITE") != "ok":
-            ck.violation("roundtrip-write-fails:%s:%s" % (fam, ftag), "writeFile (%s, %s) fails: %s" % (c["fmt"], c["mode"], hb.get("WRITE")),
-                         dict(replay, observed=hb.get("WRITE")))
+            ck.violation(sig("write-fails", ["write"]), "writeFile (%s, %s) fails: %s" % (c["fmt"], c["mode"], hb.get("WRITE")),
+                         dict(replay, observed=hb.get("WRITE"), features=feat))
             continue
         if hb.get("READ") != "ok":
-            ck.violation("roundtrip-read-fails:%s:%s" % (fam, ftag), "the file written by writeFile (%s, %s) is rejected by readFile: %s" % (c["fmt"], c["mode"], hb.get("READ")),
-                         dict(replay, observed=hb.get("READ")))
+            ck.violation(sig("read-fails", ["read"]), "the file written by writeFile (%s, %s) is rejected by readFile: %s" % (c["fmt"], c["mode"], hb.get("READ")),
+                         dict(replay, observed=hb.get("READ"), features=feat))
             continue
         back = parse_dump(hb["BACK"])
         img = parse_dump(mb["IMG"])
@@ -655,11 +690,12 @@ def check_roundtrips(ck, exe, model, tmp, cases):
             problems.append(("rownames", "row names read back %r, expected %r" % (back["rn"], exp_rn)))
         if problems:
             kinds = sorted(set(p[0] for p in problems))
-            ck.violation("roundtrip-differs:%s:%s:%s" % (fam, ftag, ",".join(kinds[:3])),
+            ck.violation(sig("differs", kinds),
                          "writeFile/readFile (%s, %s, names=%d wzo=%d unscale=%d) does not give back the LP: %s" % (
                              c["fmt"], c["mode"], c["names"], c["wzo"], c["unscale"], "; ".join(p[1] for p in problems[:4])),
                          dict(replay, given=hb["RAW"] if (c["mode"] == "real" and src is not orig) else hb["ORIG"],
-                              read_back=hb["BACK"], expected_image=mb["IMG"], kept_columns=mb["KEEP"]))
+                              read_back=hb["BACK"], expected_image=mb["IMG"], kept_columns=mb["KEEP"], features=feat,
+                              differing_fields=kinds))
         if cid < 2:
             ck.sample({"config": replay["config"], "file": replay["file"][:600]})
 
@@ -679,6 +715,9 @@ def check_duals(ck, exe, tmp, cases):
             continue
         replay = {"case": case_text(str(cid), c, lp, "real"), "file": unhx(hb.get("FILE", ""))[:4000]}
         ck.evaluated(("dual", replay["case"]))
+        if hb.get("WRITE", "").startswith("CRASH"):
+            ck.violation("dual-writer-crash:%s" % c["fmt"], "writeDualFileReal(\"x.%s\") crashes: %s" % (c["fmt"], hb.get("WRITE")), replay)
+            continue
         if hb.get("WRITE") != "ok" or hb.get("READ") != "ok":
             ck.violation("dual-file:%s" % c["fmt"], "writeDualFileReal / reading the dual file fails: write=%s read=%s" % (hb.get("WRITE"), hb.get("READ")), replay)
             continue
@@ -773,6 +812,12 @@ def main():
     try:
         quick = ck.tier == "quick"
         corp_lits, corp_rts = load_corpus()
+        if not ck.args.replay:
+            rdir = os.path.join(vlib.ROOT, "replays", "C12")
+            if os.path.isdir(rdir):
+                for f in os.listdir(rdir):
+                    if f.endswith(".json"):
+                        os.remove(os.path.join(rdir, f))
         if ck.args.replay:
             rp = json.load(open(ck.args.replay))
             lits = [rp["literal"]] if "literal" in rp else []
@@ -788,8 +833,11 @@ def main():
             ck.finish()
         # ---- (i) literals
         maxlen = 7 if quick else 9
-        lits = list(dict.fromkeys(corp_lits + enumerate_grammar(maxlen) + random_literals(ck.rng, 1500 if quick else 20000)))
-        ck.cov["literal_enumeration"] = {"alphabet": ALPHABET, "max_length": maxlen}
+        longexp = enumerate_grammar(maxlen, 4, 4)
+        lits = list(dict.fromkeys(corp_lits + enumerate_grammar(maxlen) + ck.rng.sample(longexp, min(len(longexp), 40 if quick else 600))
+                                  + random_literals(ck.rng, 1500 if quick else 20000)))
+        ck.cov["literal_enumeration"] = {"alphabet": ALPHABET, "max_length": maxlen, "exhaustive_for_exponent_digits_up_to": 3,
+                                         "sampled_four_digit_exponent_literals_of": len(longexp)}
         check_literals(ck, exe, model, tmp, lits, 5 if quick else 6)
         # ---- (ii) round trips
         cases = []
